@@ -136,8 +136,8 @@ def main():
             text += " The holdout methods SampleN / SampleFrac / LastN / LastFrac are re-translated on every run (translate/py2lean_holdout.py) and LastN is proved equal to the model's repaired lastN."
         if pid == "C06":
             text += (" array_dcg / fixed_dcg are re-translated statement by statement on every run (translate/py2lean_np.py → LK/Generated/NpC06.lean) and proved equal to the model's arrayDcg / fixedDcg; "
-                     "measure_list of Hit, Precision, Recall, RecipRank, RBP and NDCG (binary and graded) is re-translated (translate/py2lean_rank.py → LK/Generated/RankC06.lean) and each proved equal to the model's metric.")
-            tech += " + per-run translation of six metrics' measure_list and of the DCG kernels proved equal to the model"
+                     "measure_list of Hit, Precision, Recall, RecipRank, RBP, NDCG (binary and graded) and MeanPopRank is re-translated (translate/py2lean_rank.py → LK/Generated/RankC06.lean) and each proved equal to the model's metric.")
+            tech += " + per-run translation of seven metrics' measure_list and of the DCG kernels proved equal to the model"
         if pid == "C08":
             text += (" BiasModel.learn's NumPy code is re-translated statement by statement on every run (translate/py2lean_np.py → LK/Generated/NpC08.lean) and proved equal to the accumulation model "
                      "(biasLearn_eq_model), which is proved equal to the documented damped means; BiasModel.compute_for_items is translated with all its branches (translate/py2lean_imp.py → LK/Generated/ImpC08.lean) "
